@@ -90,6 +90,18 @@ def run(ctx):
             last = args[-1] if args else None
             if last is None:
                 continue
+
+            def unwrap(t):
+                # a newtype wrapper around the captured field (`CapturedOctets(&self.0)`) writes that field
+                t = strip_deep(t)
+                n_ = 0
+                while t[0] == "agg" and t[1] not in ("tuple", "array") and len(t[3]) == 1 and n_ < 3:
+                    t = strip_deep(t[3][0][1])
+                    n_ += 1
+                return t
+            last = unwrap(last)
+            if last[0] == "agg" and last[1] == "tuple":
+                last = ("agg", "tuple", last[2], tuple((k_, unwrap(v_)) for k_, v_ in last[3]))
             if last[0] == "field" and len(last) > 3 and last[3] in cap_adts and last[2] in cap_adts[last[3]]:
                 enc_uses.setdefault((last[3], last[2]), []).append(("encode", "content", c.where()))
             elif last[0] == "agg" and last[1] == "tuple":
